@@ -46,6 +46,13 @@ func (r *Run) RunVariantChild(variant string, timeout time.Duration, countNT boo
 	if i := strings.LastIndex(variant, "@"); i >= 0 {
 		env = append(env, "GOMAXPROCS="+variant[i+1:])
 	}
+	// "env:NAME=VALUE" tokens set the child's environment (time zone, locale ...): state a process
+	// inherits from outside
+	for _, tok := range strings.Split(strings.SplitN(variant, "@", 2)[0], "+") {
+		if strings.HasPrefix(tok, "env:") {
+			env = append(env, tok[4:])
+		}
+	}
 	so, se, code, timedOut, err := RunSelfChild(timeout, env, r.Prop, variant)
 	if err != nil {
 		r.Inconclusive(fmt.Sprintf("variant %s: cannot run child: %v", variant, err))
